@@ -5,6 +5,7 @@ import (
 	"encoding/json"
 	"fmt"
 	"os"
+	"regexp"
 	"sort"
 	"strings"
 
@@ -80,6 +81,18 @@ var Texts = map[string]string{
   leaf x { type d2 { fraction-digits 3; } }
   leaf fine { type d2; }
 }`,
+	// several errors on ONE line, at columns with one, two and three digits (and one on line 10 after lines 2 and 9)
+	"e6": `module e6 { namespace "urn:e6"; prefix e6;
+  leaf a { type aa; } leaf bbbbb { type bb; } leaf cccccccccc { type cc; } leaf dddddddddddddddddddddddddddddddddddddddddddddddddddddddd { type dd; }
+
+
+
+  leaf n5 { type string; }
+
+
+  leaf l9 { type t9; }
+  leaf l10 { type t10; }
+}`,
 	// a target module and a module (without revision statement) that augments and deviates it
 	"tgt": `module tgt { namespace "urn:tgt"; prefix tgt;
   container c { leaf l { type string; default "d"; } leaf-list ll { type string; max-elements 5; } }
@@ -118,6 +131,9 @@ var Texts = map[string]string{
 module idu { namespace "urn:idu"; prefix idu; import ida { prefix a; } identity d { base a:x; } identity e { base a:top; } leaf r { type identityref { base a:top; } } }`,
 	"sr1": `submodule ids { belongs-to ida { prefix ida; } revision 2020-01-01; identity x { base ida:top; } }`,
 	"sr2": `submodule ids { belongs-to ida { prefix ida; } revision 2021-01-01; identity z { base ida:top; } }`,
+	// read from a FILE (Modules.Read) in the directory that also holds its dependency bbf.yang and the broken xf.yang
+	"ibf": `module ibf { namespace "urn:ibf"; prefix ibf; import bbf { prefix b; } leaf l { type b:tf; } }`,
+	"bbf": `module bbf { namespace "urn:bbf"; prefix bbf; typedef tf { type string; units "from-file"; } }`,
 	// a submodule of fm1 that fm2 includes as well (it does not belong to fm2: an error, in every run and order)
 	"fm1": `module fm1 { namespace "urn:fm1"; prefix fm1; include fs; leaf own1 { type string; } }`,
 	"fm2": `module fm2 { namespace "urn:fm2"; prefix fm2; include fs; leaf own2 { type string; } }`,
@@ -249,10 +265,31 @@ func Dump(ms *yang.Modules, errs []error) string {
 	return sb.String()
 }
 
+// loadText offers one text of the catalogue to the set: through Parse, or (for the file texts) through Read of a file
+// in the directory "files", which also holds loadable dependencies.
+func loadText(ms *yang.Modules, id string) error {
+	switch id {
+	case "x-file-syntax", "ibf":
+		os.MkdirAll("files", 0o755)
+		os.WriteFile("files/xf.yang", []byte(Texts["x-file-syntax"]), 0o644)
+		os.WriteFile("files/bb.yang", []byte(Texts["bb-r1"]), 0o644)
+		os.WriteFile("files/bbf.yang", []byte(Texts["bbf"]), 0o644)
+		os.WriteFile("files/ibf.yang", []byte(Texts["ibf"]), 0o644)
+		if id == "ibf" {
+			return ms.Read("files/ibf.yang")
+		}
+		return ms.Read("files/xf.yang")
+	}
+	return ms.Parse(Texts[id], id+".yang")
+}
+
+// LoadText is loadText for the other families.
+func LoadText(ms *yang.Modules, id string) error { return loadText(ms, id) }
+
 func batch(ids []string) string {
 	ms := yang.NewModules()
 	for _, id := range ids {
-		if err := ms.Parse(Texts[id], id+".yang"); err != nil {
+		if err := loadText(ms, id); err != nil {
 			return "batch load of " + id + " failed: " + err.Error()
 		}
 	}
@@ -291,18 +328,7 @@ func replay(c *cas, skip map[string]bool) (sig, detail string) {
 			if skip[o.Text] {
 				continue
 			}
-			var err error
-			if o.Text == "x-file-syntax" {
-				dir, derr := os.MkdirTemp(".", "files")
-				if derr != nil {
-					return "infra", derr.Error()
-				}
-				os.WriteFile(dir+"/xf.yang", []byte(Texts[o.Text]), 0o644)
-				os.WriteFile(dir+"/bb.yang", []byte(Texts["bb-r1"]), 0o644)
-				err = ms.Read(dir + "/xf.yang")
-			} else {
-				err = ms.Parse(Texts[o.Text], o.Text+".yang")
-			}
+			err := loadText(ms, o.Text)
 			if (err == nil) != o.Ok {
 				if o.Ok {
 					return "good-text-rejected", fmt.Sprintf("step %d load %s: the specification accepts, the library says %v", i+1, o.Text, err)
@@ -311,6 +337,26 @@ func replay(c *cas, skip map[string]bool) (sig, detail string) {
 			}
 		case "query":
 			queries(ms)
+		case "clear":
+			ms.ClearEntryCache()
+		case "get":
+			// GetModule of the first module loaded: the set is processed and that module's tree handed out
+			name := ""
+			for _, h := range c.Hist[:i] {
+				if h.Op == "load" && h.Ok && !skip[h.Text] {
+					if m := reModName.FindStringSubmatch(Texts[h.Text]); m != nil {
+						name = m[1]
+						break
+					}
+				}
+			}
+			_, gerrs := ms.GetModule(name)
+			got := Dump(ms, gerrs)
+			want := batch(c.Expect[np])
+			np++
+			if got != want {
+				return "getmodule-differs", fmt.Sprintf("step %d GetModule(%s): the set reads differently from the batch run of %v on a fresh set:\n%s\nversus\n%s", i+1, name, c.Expect[np-1], firstDiff(got, want), "")
+			}
 		case "process":
 			got := Dump(ms, ms.Process())
 			want := batch(c.Expect[np])
@@ -340,6 +386,25 @@ func replay(c *cas, skip map[string]bool) (sig, detail string) {
 		}
 	}
 	return "", ""
+}
+
+var reModName = regexp.MustCompile(`^\s*module\s+([A-Za-z0-9_-]+)`)
+
+func firstDiff(got, want string) string {
+	gl, wl := strings.Split(got, "\n"), strings.Split(want, "\n")
+	for k := 0; k < len(gl) || k < len(wl); k++ {
+		g, w := "", ""
+		if k < len(gl) {
+			g = gl[k]
+		}
+		if k < len(wl) {
+			w = wl[k]
+		}
+		if g != w {
+			return fmt.Sprintf("first differing line: this set %q, fresh set %q", g, w)
+		}
+	}
+	return ""
 }
 
 func safeReplay(c *cas, skip map[string]bool) (sig, detail string) {
@@ -421,7 +486,7 @@ func exec(kind byte, body []byte) *core.Verdict {
 // given texts: what the property promises must hold however the set was arrived at.
 var first = map[string]bool{"i1": true, "t2": true, "t2b": true, "t2c": true, "a3": true, "m4": true, "s4": true, "bb-r1": true, "bb-r2": true, "ib": true, "e5": true}
 
-var third = map[string]bool{"idm": true, "idb": true, "fm1": true, "fm2": true, "fs": true, "au": true, "sr1": true, "sr2": true}
+var third = map[string]bool{"idm": true, "idb": true, "fm1": true, "fm2": true, "fs": true, "au": true, "sr1": true, "sr2": true, "ibf": true}
 
 func Histories(r *core.Run, prop string, texts ...string) {
 	core.CaseSuffix = `,"prop":"` + prop + `"}`
